@@ -136,7 +136,7 @@ def narrowGuard (t : Table) (line : Str) (col : Nat) (n : Str) : Bool :=
 
 /-- Guard of `short-indent`: a line indented by one to three blanks is not taken for a posting. -/
 def shortIndent (line : Str) : Bool :=
-  line.head? == some ' ' && !hasPrefix line "    ".toList
+  line.head? == some ' ' && !hasPrefix line fourBlanks
 
 def judgeOne (t : Table) (fuzzy : Bool) (max : Nat) (line : Str) (ch : Nat) (spans : List Span)
     (o : Obs) (fixedWouldPass : Bool) : List Fail := Id.run do
